@@ -265,6 +265,8 @@ pub struct Loop {
     pub mutations: Vec<Value>,
     pub accept_smile: bool,
     pub chunk: usize,
+    /// the transport loses the first attempt after the body was written and retries (reset() + write_body again)
+    pub retry: bool,
 }
 
 fn err_json(e: &Error) -> Value {
@@ -524,6 +526,10 @@ impl Client for &Loop {
             RequestBody::Streaming(mut w) => {
                 let mut buf = vec![];
                 w.write_body(&mut buf)?;
+                if self.retry && w.reset() {
+                    buf.clear();
+                    w.write_body(&mut buf)?;
+                }
                 buf
             }
         };
@@ -542,6 +548,10 @@ impl AsyncClient for &Loop {
             AsyncRequestBody::Streaming(mut w) => {
                 let mut buf = vec![];
                 conjure_http::client::AsyncWriteBody::write_body(Pin::new(&mut w), Pin::new(&mut buf)).await?;
+                if self.retry && conjure_http::client::AsyncWriteBody::reset(Pin::new(&mut w)).await {
+                    buf.clear();
+                    conjure_http::client::AsyncWriteBody::write_body(Pin::new(&mut w), Pin::new(&mut buf)).await?;
+                }
                 buf
             }
         };
@@ -639,10 +649,16 @@ pub fn run_case(case: &Value) -> Result<Value, String> {
         mutations: case["mutations"].as_array().cloned().unwrap_or_default(),
         accept_smile: case["smile"].as_bool().unwrap_or(false),
         chunk: case["chunk"].as_u64().unwrap_or(1) as usize,
+        retry: case["retry"].as_bool().unwrap_or(false),
     };
     let ep = case["endpoint"].as_str().ok_or("endpoint")?;
     let args = &case["args"];
     let result = match case["client"].as_str().unwrap_or("gen-blocking") {
+        // the stock `impl WriteBody for &[u8]` (blocking clients only) instead of the harness's own body writer
+        "gen-blocking" if ep == "binaryBody" && case["slice_body"].as_bool().unwrap_or(false) => {
+            let bytes: Vec<u8> = arg(args, "body")?;
+            a::MatrixClient::new(&lp).binary_body(&bytes[..]).map(|b| json!(b.collect()))
+        }
         "gen-blocking" => call_gen_blocking(&a::MatrixClient::new(&lp), ep, args)?,
         "gen-async" => call_gen_async(&a::MatrixAsyncClient::new(&lp), ep, args)?,
         "macro-blocking" => mac::call_blocking(&lp, ep, args)?,
